@@ -67,6 +67,29 @@ func (p *Prog) funcRefName(f *ssa.Function) string {
 func (p *Prog) DescribeFuncValue(v ssa.Value) string {
 	switch x := v.(type) {
 	case *ssa.Parameter:
+		// the parameter of a helper no rule names: what its callers hand in,
+		// when they all hand in the same thing (a literal's body moved into a
+		// method that receives the captured callback as an argument)
+		if p.Transparent(x.Parent()) {
+			if rs := ResolveAll(x); len(rs) > 0 && !(len(rs) == 1 && rs[0] == ssa.Value(x)) {
+				d := ""
+				for _, r := range rs {
+					if r == ssa.Value(x) {
+						d = ""
+						break
+					}
+					dr := p.DescribeFuncValue(r)
+					if d != "" && dr != d {
+						d = ""
+						break
+					}
+					d = dr
+				}
+				if d != "" && !strings.HasPrefix(d, "dyn:") {
+					return d
+				}
+			}
+		}
 		return "param:" + p.ParamName(x)
 	case *ssa.FreeVar:
 		return "freevar:" + p.FreeVarName(x)
